@@ -12,8 +12,8 @@ LEVEL_NOTE = [
 ]
 PARTIAL = [
     "proved valid: C11.int_valid, float_valid, hexfloat_valid, char_valid / char_escape_valid / char_octal_valid / char_hex_valid, string_valid, string_units_valid (bodies of any length mixing plain characters with simple, octal and hexadecimal escapes)",
-    "proved reported (every malformed family the property names, unbounded members, exact list of added diagnostics): int_token / int_unknown_suffix_reported / int_bad_octal_digit_reported / int_bad_binary_digit_reported (Proofs/IntReport.lean), bad_exponent_reported / bad_hex_exponent_reported / multiple_dots_reported (Proofs/BadFloats.lean), empty_char_reported / char_eof_reported / char_eol_reported / string_eof_reported (Proofs/BadLiterals.lean)",
-    "not proved: `\\?` inside a string, unknown suffixes of floating constants (the tool's table is a superset of the standard's) and MULTIPLE_X (closed witnesses only): decided per input by the correspondence and by the independent recogniser below",
+    "proved reported (every malformed family the property names, unbounded members, exact list of added diagnostics): int_token / int_unknown_suffix_reported / int_bad_octal_digit_reported / int_bad_binary_digit_reported (Proofs/IntReport.lean), bad_exponent_reported / bad_hex_exponent_reported / multiple_dots_reported / multiple_x_reported / bad_float_suffix_reported (Proofs/BadFloats.lean), empty_char_reported / char_eof_reported / char_eol_reported / string_eof_reported (Proofs/BadLiterals.lean)",
+    "not proved: `\\?` inside a string: decided per input by the correspondence and by the independent recogniser below",
 ]
 
 ISUF = ["", "u", "U", "l", "L", "ll", "LL", "z", "Z", "wb", "WB", "i64", "I64", "ul", "uL", "Ul", "UL", "lu", "lU", "Lu", "LU",
